@@ -196,9 +196,11 @@ class Gen:
         if k == "forv":
             return ["mod_seq", [["t", r.choice(["2", "3", "⟨4|5⟩"])], ["forv", r.choice(["i", "j"]), self.body(d, "for")]]]
         if k == "while":
-            # counter pattern: <k> { : | ‹ body } _   (terminates when the counter reaches 0)
-            body = [["t", "‹"]] + self.body(d, "while", n=r.randint(0, 2))
-            return ["mod_seq", [["t", r.choice(["1", "2", "3"])], ["while", [["t", ":"]], body], ["t", "_"]]]
+            # counter pattern on a reserved variable: 3 →ka { ←ka | ←ka ‹ →ka body }  (the body may do anything
+            # to the stack; the loop ends when the counter reaches 0)
+            var = "k" + "abcdefgh"[min(depth, 7)]
+            body = [["t", f"←{var} ‹ →{var}"]] + self.body(d, "while", n=r.randint(0, 3))
+            return ["mod_seq", [["t", r.choice(["1", "2", "3"]) + f" →{var}"], ["while", [["t", f"←{var}"]], body]]]
         if k == "if":
             cond = ["t", r.choice(["1", "0", "n", "!", "2 n <"])]
             if r.random() < 0.5:
